@@ -202,15 +202,14 @@ def threaded_successors(fn):
         real = [i for i in b.insns if i.op != 'dbg']
         if len(real) < 2:
             continue
-        phi = real[0]
         term = real[-1]
-        if phi.op != 'phi' or term.op != 'br' or len(term.extra['targets']) != 2:
+        if term.op != 'br' or len(term.extra['targets']) != 2 or not term.ops or term.ops[0][0] != 'reg':
             continue
-        if not term.ops or term.ops[0] != ('reg', phi.res):
+        # the block must consist of phis only (no side effects are skipped by threading an edge past it)
+        if any(i.op != 'phi' for i in real[:-1]):
             continue
-        # everything between must be side-effect free and not use anything but be dead w.r.t. threading:
-        mid = real[1:-1]
-        if any(i.op not in ('phi',) for i in mid):
+        phi = next((i for i in real[:-1] if i.res == term.ops[0][1]), None)
+        if phi is None:
             continue
         for v, pred in phi.extra['incoming']:
             if v[0] == 'int':
